@@ -13,6 +13,8 @@
 //   configuration changes (each followed by the update the API prescribes):
 //     chg_obs <k>                 k-th observation (1-based, over OD) toggled passive/active; update_observations()
 //     chg_xyz <k> <hex mm>        k-th adjustable point shifted; update_residuals()
+//     denote                      (round 13) revision_observations() if needed; `den <class> x n … r m … pvv v || <state>`:
+//                                 the answers of solve()/residuals()/trans_VWV() and the state as model input
 //     set_algorithm <alg>         (update(Points) inside); answers `ok <dynamic class of the new solver object>`
 //     refine                      refine_approx_coordinates()
 //     remove_huge                 remove_huge_abs_terms(); prints "huge <0|1>" (whether any term was outlying)
@@ -25,6 +27,7 @@
 #include <cmath>
 #include <fstream>
 #include <iostream>
+#include <map>
 #include <memory>
 #include <sstream>
 #include <string>
@@ -45,6 +48,7 @@ struct GamaVerifProbe {
   static void flags(const LocalNetwork& n, std::ostream& out) {
     out << "fl " << n.tst_redbod_ << " " << n.tst_redmer_ << " " << n.tst_rov_opr_ << " " << n.tst_vyrovnani_ << "\n";
   }
+  static bool revised(const LocalNetwork& n) { return n.tst_redmer_; }
   // round 9: dynamic class of the solver object `least_squares` (what set_algorithm(name) really created)
   static const char* solver_class(const LocalNetwork& n) {
     typedef GNU_gama::local::MatVecException MVE;
@@ -165,6 +169,80 @@ static bool member(LocalNetwork& n, const std::vector<std::string>& t)
   return true;
 }
 
+
+// ---- round 13: `denote` — the state of the real network as definition lines of the model of project_equations()
+// (same vocabulary as harness/pe_net.cpp `dump_state`, one line, items separated by " | "), then the answers of
+// solve(), residuals(), trans_VWV() of THIS (historied) object
+static const char* cls_of(const Observation* o)
+{
+  if (dynamic_cast<const Direction*>(o))  return "Direction";
+  if (dynamic_cast<const Distance*>(o))   return "Distance";
+  if (dynamic_cast<const Angle*>(o))      return "Angle";
+  if (dynamic_cast<const H_Diff*>(o))     return "H_Diff";
+  if (dynamic_cast<const S_Distance*>(o)) return "S_Distance";
+  if (dynamic_cast<const Z_Angle*>(o))    return "Z_Angle";
+  if (dynamic_cast<const X*>(o))          return "X";
+  if (dynamic_cast<const Y*>(o))          return "Y";
+  if (dynamic_cast<const Z*>(o))          return "Z";
+  if (dynamic_cast<const Xdiff*>(o))      return "Xdiff";
+  if (dynamic_cast<const Ydiff*>(o))      return "Ydiff";
+  if (dynamic_cast<const Zdiff*>(o))      return "Zdiff";
+  if (dynamic_cast<const Azimuth*>(o))    return "Azimuth";
+  return "?";
+}
+static char stc(bool active, bool fixed, bool constrained, bool adjusted)
+{ return !active ? 'u' : fixed ? 'f' : constrained ? 'c' : adjusted ? 'a' : 'u'; }
+static char st_xy(const LocalPoint& p) { return stc(p.active_xy(), p.fixed_xy(), p.constrained_xy(), p.free_xy()); }
+static char st_z(const LocalPoint& p)  { return stc(p.active_z(),  p.fixed_z(),  p.constrained_z(),  p.free_z()); }
+static std::string idtok(const PointID& id) { return id.str().empty() ? std::string("<empty>") : id.str(); }
+
+static void dump_state(LocalNetwork& N, std::ostream& out)
+{
+  std::vector<PointID> ids; std::map<PointID, int> pos;
+  for (auto& kv : N.PD) { pos[kv.first] = int(ids.size()); ids.push_back(kv.first); }
+  auto pos_of = [&](const PointID& id) { auto f = pos.find(id); return f == pos.end() ? int(ids.size()) : f->second; };
+  out << "net " << vp::hex(N.apriori_m_0()) << " " << vp::hex(N.PD.xNorthAngle());
+  for (const PointID& id : ids) {
+    const LocalPoint& p = N.PD.find(id)->second;
+    const bool xy = p.test_xy(), z = p.test_z();
+    out << " | pt " << idtok(id) << " " << vp::hex(xy ? p.x() : 0.0) << " " << vp::hex(xy ? p.y() : 0.0) << " "
+        << vp::hex(z ? p.z() : 0.0) << " " << st_xy(p) << " " << st_z(p) << " "
+        << p.index_x() << " " << p.index_y() << " " << p.index_z();
+  }
+  for (const auto* cl : N.OD.clusters) {
+    if (const StandPoint* sp = dynamic_cast<const StandPoint*>(cl))
+      out << " | cl S " << pos_of(sp->station) << " " << (sp->test_orientation() ? 1 : 0) << " "
+          << vp::hex(sp->test_orientation() ? sp->orientation() : 0.0);
+    else out << " | cl O";
+    const CovMat& C = cl->covariance_matrix;
+    out << " " << C.rows() << " " << C.bandWidth();
+    for (const double* q = C.begin(), *e = C.end(); q != e; ++q) out << " " << vp::hex(*q);
+    for (const Observation* o : cl->observation_list) {
+      const std::string k = cls_of(o);
+      int from = pos_of(o->from()), to = pos_of(o->to()), fs = 0;
+      if (k == "X" || k == "Y" || k == "Z") to = from;
+      if (const Angle* a = dynamic_cast<const Angle*>(o)) fs = pos_of(a->fs());
+      out << " | ob " << (o->active() ? 1 : 0) << " " << k << " " << from << " " << to << " " << fs << " " << vp::hex(o->value());
+    }
+  }
+}
+
+static void denote(LocalNetwork& n)
+{
+  std::ostringstream st, ans;
+  if (!GamaVerifProbe::revised(n)) n.revision_observations();   // what project_equations() starts with
+  dump_state(n, st);
+  GNU_gama::Vec<> x = n.solve();
+  GNU_gama::Vec<> r = n.residuals();
+  double pvv = n.trans_VWV();
+  ans << "den " << GamaVerifProbe::solver_class(n) << " x " << x.dim();
+  for (int i = 1; i <= x.dim(); i++) ans << " " << vp::hex(x(i));
+  ans << " r " << r.dim();
+  for (int i = 1; i <= r.dim(); i++) ans << " " << vp::hex(r(i));
+  ans << " pvv " << vp::hex(pvv);
+  std::cout << ans.str() << " || " << st.str() << "\n";
+}
+
 int main()
 {
   set_gama_language(en);
@@ -212,6 +290,7 @@ int main()
         std::cout << (done ? "ok\n" : "ok none\n");
       }
       else if (q == "set_algorithm") { n.set_algorithm(t.at(1)); std::cout << "ok " << GamaVerifProbe::solver_class(n) << "\n"; }
+      else if (q == "denote") denote(n);
       else if (q == "refine") { n.refine_approx_coordinates(); std::cout << "ok\n"; }
       else if (q == "remove_huge") { bool h = n.huge_abs_terms(); n.remove_huge_abs_terms(); std::cout << "huge " << (h ? 1 : 0) << "\n"; }
       else if (q == "fresh") {
